@@ -66,4 +66,15 @@ def compute_domains_affine_eq(domains: NDArray, parameters: NDArray) -> int:
             domains[i, MAX] = min(domains[i, MAX], new_max)
             if domains[i, MIN] > domains[i, MAX]:
                 return PROP_INCONSISTENCY
+    # the constant must still be reachable on the filtered domains (e.g. 0 * x = 5 or 2 * x + 2 * y = 3)
+    domain_sum_min = domain_sum_max = parameters[-1]
+    for i, c in enumerate(parameters[:-1]):
+        if c > 0:
+            domain_sum_min -= c * domains[i, MAX]
+            domain_sum_max -= c * domains[i, MIN]
+        else:
+            domain_sum_min -= c * domains[i, MIN]
+            domain_sum_max -= c * domains[i, MAX]
+    if domain_sum_min > 0 or domain_sum_max < 0:
+        return PROP_INCONSISTENCY
     return PROP_CONSISTENCY
